@@ -12,6 +12,10 @@ LenCls  == {"ok", "none", "big"}            \* Content-Length: fine, absent, > 1
 Bodies  == {"valid", "notder", "trailing"}
 Realms  == {"default", "configured", "unknown"}
 Behaviours == {"reply", "partial", "close", "silent", "refuse"}
+\* size of the embedded Kerberos message: nothing, shorter than the 4-byte length prefix a datagram KDC
+\* request must exceed, exactly 4, fits a datagram, larger than a datagram, just under the 128 KiB limit.
+\* No action below reads it: the proxy has to treat every size alike.
+SizeCls == {"s0", "s3", "s4", "s1400", "s60000", "smax"}
 
 \* status the validation demands, 0 = the request is acceptable
 Validate(method, len, body) ==
@@ -29,11 +33,13 @@ VARIABLES req,    \* [method, len, body, realm]
 vars == <<req, beh, got, answered, clock, resp>>
 
 NoResp == [status |-> 0, reply |-> "none"]
-Init == /\ req \in [method : Methods, len : LenCls, body : Bodies, realm : Realms]
+Init == /\ req \in [method : Methods, len : LenCls, body : Bodies, realm : Realms, size : SizeCls]
         /\ beh \in [KDCs -> Behaviours]
         /\ got = [k \in KDCs |-> "nothing"] /\ answered = <<>> /\ clock = 0 /\ resp = NoResp
 
 Acceptable == Validate(req.method, req.len, req.body) = 0
+\* a KDC can frame (and therefore answer) only a request that carries at least the 4-byte length prefix
+Framed(size) == size \notin {"s0", "s3"}
 Known == req.realm \in {"default", "configured"}
 
 Reject == /\ resp = NoResp /\ ~Acceptable
@@ -46,7 +52,7 @@ UnknownRealm == /\ resp = NoResp /\ Acceptable /\ ~Known
 Send(k) == /\ resp = NoResp /\ Acceptable /\ Known /\ got[k] = "nothing" /\ beh[k] # "refuse"
            /\ got' = [got EXCEPT ![k] = "message"]
            /\ UNCHANGED <<req, beh, answered, clock, resp>>
-KdcAnswers(k) == /\ got[k] = "message" /\ beh[k] = "reply" /\ k \notin {answered[i] : i \in 1..Len(answered)}
+KdcAnswers(k) == /\ got[k] = "message" /\ beh[k] = "reply" /\ Framed(req.size) /\ k \notin {answered[i] : i \in 1..Len(answered)}
                  /\ answered' = Append(answered, k)
                  /\ UNCHANGED <<req, beh, got, clock, resp>>
 Tick == /\ resp = NoResp /\ clock < Deadline /\ clock' = clock + 1 /\ UNCHANGED <<req, beh, got, answered, resp>>
